@@ -79,7 +79,7 @@ def group_keys(level, g, prefix):
         d[prefix + "_cond_expr"] = expr_text(g["expr"], names)
     else:
         d[prefix + "_conditions"] = conds
-        if g["link"] in ("and", "or"):
+        if g["link"] != "default":  # and / or - or whatever word stands in their place
             d[prefix + "_cond_op"] = g["link"]
         if g["neg"]:
             d[prefix + "_cond_not"] = True
